@@ -262,9 +262,12 @@ func storageWaterBalance(rainfallTS, petTS, inflowTS, demandTS, targetMinimumVol
 						// return
 					}
 				}
+				verifSubstep(volume, testVol, subtimestep, avgOutflow, avgArea, 0, false)
 				subtimestep = math.Max(subtimestep*0.5,MIN_TIMESTEP_SECONDS_NEGATIVE)
 			}
 
+			verifVolumeBefore := volume
+			verifSpill := 0.0
 			outflowVolume += avgOutflow * subtimestep
 			// Atmospheric exchange of the accepted sub-step (mm over the average area, in m^3)
 			rainfallVolForTimestep += rainfallPerSecond * units.MILLIMETRES_TO_METRES * avgArea * subtimestep
@@ -286,7 +289,9 @@ func storageWaterBalance(rainfallTS, petTS, inflowTS, demandTS, targetMinimumVol
 				excessOutflowVolume = math.Max(math.Min(excessOutflowVolume,volume-volCurveMax),0.0)
 				outflowVolume += excessOutflowVolume
 				volume = volume - excessOutflowVolume
+				verifSpill = excessOutflowVolume
 			}
+			verifSubstep(verifVolumeBefore, volume, subtimestep, avgOutflow, avgArea, verifSpill, true)
 	
 			timeRemaining -= subtimestep
 		}
